@@ -8,6 +8,26 @@ pub mod util;
 
 include!(concat!(env!("OUT_DIR"), "/engines.rs"));
 
+/// Allocation watch: the harness's global allocator records the largest single request, so that
+/// an engine can ask "how much did this decode try to allocate?" (C17: a decoder never allocates
+/// beyond the size of its input).  Requests are passed to the system allocator unchanged.
+pub mod allocwatch {
+    use std::alloc::{GlobalAlloc, Layout, System};
+    use std::sync::atomic::{AtomicUsize, Ordering};
+    pub static MAX_REQ: AtomicUsize = AtomicUsize::new(0);
+    pub struct Watch;
+    unsafe impl GlobalAlloc for Watch {
+        unsafe fn alloc(&self, l: Layout) -> *mut u8 { MAX_REQ.fetch_max(l.size(), Ordering::Relaxed); unsafe { System.alloc(l) } }
+        unsafe fn alloc_zeroed(&self, l: Layout) -> *mut u8 { MAX_REQ.fetch_max(l.size(), Ordering::Relaxed); unsafe { System.alloc_zeroed(l) } }
+        unsafe fn dealloc(&self, p: *mut u8, l: Layout) { unsafe { System.dealloc(p, l) } }
+        unsafe fn realloc(&self, p: *mut u8, l: Layout, n: usize) -> *mut u8 { MAX_REQ.fetch_max(n, Ordering::Relaxed); unsafe { System.realloc(p, l, n) } }
+    }
+    pub fn reset() { MAX_REQ.store(0, Ordering::Relaxed); }
+    pub fn max() -> usize { MAX_REQ.load(Ordering::Relaxed) }
+}
+#[global_allocator]
+static GLOBAL: allocwatch::Watch = allocwatch::Watch;
+
 fn main() {
     let args: Vec<String> = std::env::args().collect();
     if args.len() < 2 {
